@@ -375,7 +375,7 @@ class CFG:
             ret=lambda: via("return", lambda: [(outer.ret(), "return")]),
             brk=lambda: via("break", lambda: [(outer.brk(), "break")]),
             cont=lambda: via("continue", lambda: [(outer.cont(), "continue")]),
-            exc=lambda kind: [via(("exc", kind), lambda: [(t, ("exc", kind)) for t in outer.exc(kind)])],
+            exc=lambda kind: [via(("exc", kind), lambda: [(t, ("reraise", kind)) for t in outer.exc(kind)])],
             handler=outer.handler,
             copy=outer.copy,
         )
